@@ -190,7 +190,11 @@ where
             let enc_r = &proof.enc_r;
             let enc_x_r = &proof.enc_x_r;
 
-            let r = rsa_decrypt_with_label(enc_r, label, rsa_privkey)?;
+            // A slot whose unopened ciphertext is garbage must not hide the other slots.
+            let r = match rsa_decrypt_with_label(enc_r, label, rsa_privkey) {
+                Ok(r) => r,
+                Err(_) => continue,
+            };
 
             // If r is not a valid scalar, continue. We expect at least one of the proofs to be valid, assuming the proofs are verified.
             let r = if let Some(r) = decode_scalar::<G::Scalar>(&r) {
@@ -200,7 +204,10 @@ where
             };
 
             let x_plus_r =
-                rsa_decrypt_with_label(enc_x_r, label, rsa_privkey)?;
+                match rsa_decrypt_with_label(enc_x_r, label, rsa_privkey) {
+                    Ok(x_plus_r) => x_plus_r,
+                    Err(_) => continue,
+                };
 
             let x_plus_r = if let Some(x_plus_r) =
                 decode_scalar::<G::Scalar>(&x_plus_r)
